@@ -3,7 +3,7 @@ import random
 from pathlib import Path
 
 from vlib import Check
-from checks.writer_common import writer_model, run_scenarios, writer_scenarios, exporter_scenarios, reuse_scenarios, pending_scenarios, failed_rotation_scenarios, refused_rename_scenarios
+from checks.writer_common import writer_model, run_scenarios, writer_scenarios, exporter_scenarios, reuse_scenarios, pending_scenarios, failed_rotation_scenarios, refused_rename_scenarios, alignment_scenarios
 
 
 def run(tier):
@@ -51,7 +51,9 @@ def run(tier):
     stale = [dict(s, id=s["id"] + 20000, prepart=[1, 2, 3]) for s in scs if s["id"] % 3 == 0]
     scs += stale
     m = run_scenarios(chk, "c15", scs, {"C15"}, "c15")
-    chk.distinct = m["execs"]
+    # the same rules on the build whose encoder buffer is 12 bytes, outputs whose closing break meets every fill level
+    m2 = run_scenarios(chk, "c15", alignment_scenarios(tier), {"C15"}, "c15a", defs=("CDNS_VERIF_ENC_BUFFER=12",))
+    chk.distinct = m["execs"] + m2["execs"]
     chk.exhaustive = True
     chk.extra["exhaustive_over"] = "every write/writev/rename of every listed scenario (crash point k = 1..K)"
     return chk.finish()
